@@ -2,7 +2,7 @@
    This file contains only the property theorems (each closed by [exact]) and Print Assumptions. *)
 From Coq Require Import List NArith Bool String Ascii.
 Import ListNotations.
-From SygmaV Require Import Model.C12 Proofs.C12.
+From SygmaV Require Import Model.C12 Proofs.C12 Proofs.C12_Conc.
 Local Open Scope string_scope.
 Local Open Scope N_scope.
 Local Open Scope list_scope.
@@ -166,4 +166,118 @@ Example C12_fan_nonvacuous :
   judge_fan ops msgs [7; 8; 9]
     [[("keygen-17", 0, "b", 1); ("keygen-17", 0, "b", 1); ("keygen-17", 0, "b", 1)]; [];
      [("keygen-17", 0, "b", 1); ("keygen-17", 0, "b", 1)]] = false.
+Proof. vm_compute. repeat split. Qed.
+
+(* ---- concurrent use.  Several threads, each running its own sequential program on the ONE shared
+   table; every SubscribeTo / UnSubscribeFrom / GetSubscribers is one atomic step (the mutex), a
+   thread cancels only its own subscriptions (Unsub k = its k-th Sub).  [sched sigma ths] is the
+   model of the code run under the schedule sigma (ANY list of thread numbers: who takes the next
+   step; numbers of finished or non-existing threads are skipped), [shared_table] its table (with
+   identifiers), [own_state .. i] the specification's state of thread i's own operations done so
+   far.  Hypotheses: Subscribe never returns an id twice (wf_ops of the shared table's history) and,
+   where stated, a channel is subscribed by one thread only (wf_ownb).
+
+   For every schedule, (session, type) and channel: the shared table holds the channel exactly as
+   often as the threads' own histories together ... *)
+Theorem C12_conc_table_sum : forall ths sigma s t c,
+  wf_ops (g_hist (sched sigma ths)) = true ->
+  copies c (subscribers s t (shared_table sigma ths)) =
+  list_sum (map (fun i => copies c (spec_subscribers s t (fst (own_state (sched sigma ths) ths i))))
+                (seq 0 (List.length ths))).
+Proof. exact conc_table_sum. Qed.
+Print Assumptions C12_conc_table_sum.
+
+(* ... so what a thread finds for one of ITS channels is decided by its own history alone, whatever
+   the other threads do meanwhile and wherever they are ... *)
+Theorem C12_conc_own_exact : forall ths sigma s t c i,
+  wf_ops (g_hist (sched sigma ths)) = true -> wf_ownb ths = true ->
+  (i < List.length ths)%nat -> owns (nth i ths []) c = true ->
+  copies c (subscribers s t (shared_table sigma ths)) =
+  copies c (spec_subscribers s t (fst (own_state (sched sigma ths) ths i))).
+Proof. exact conc_own_exact. Qed.
+Print Assumptions C12_conc_own_exact.
+
+(* ... no channel is found more often than it is ever subscribed to that (session, type) ... *)
+Theorem C12_conc_bound : forall ths sigma s t c,
+  wf_ops (g_hist (sched sigma ths)) = true ->
+  (copies c (subscribers s t (shared_table sigma ths)) <= copies c (sub_chans s t (List.concat ths)))%nat.
+Proof. exact conc_bound. Qed.
+Print Assumptions C12_conc_bound.
+
+(* ... and once every thread has finished, the table is exactly the live subscriptions of all
+   threads, independently of the schedule. *)
+Theorem C12_conc_final : forall ths sigma s t c,
+  wf_ops (g_hist (sched sigma ths)) = true -> complete (sched sigma ths) ths ->
+  copies c (subscribers s t (shared_table sigma ths)) = copies c (conc_final s t ths).
+Proof. exact conc_final_table. Qed.
+Print Assumptions C12_conc_final.
+
+(* The judge of a concurrent run accepts what the model observes under every complete schedule
+   (per thread the lookups right after each of its operations, and the table at the end) ... *)
+Theorem C12_conc_judge_model : forall ths sigma U,
+  wf_ownb ths = true -> wf_ops (g_hist (sched sigma ths)) = true -> complete (sched sigma ths) ths ->
+  judge_conc ths (conc_obs (sched sigma ths)) U (conc_final_obs (sched sigma ths) U) false O = true.
+Proof. exact conc_judge_model_b. Qed.
+Print Assumptions C12_conc_judge_model.
+
+(* ... a lookup made later - the other threads anywhere - still passes, as long as the looking
+   thread has not moved: anything with the shared table's counts is accepted against the thread's
+   own state, under every schedule ... *)
+Theorem C12_conc_look_model : forall ths sigma i s t v,
+  wf_ops (g_hist (sched sigma ths)) = true -> wf_ownb ths = true -> (i < List.length ths)%nat ->
+  (forall c, copies c v = copies c (subscribers s t (shared_table sigma ths))) ->
+  look_ok (nth i ths []) (sub_chans s t (List.concat ths))
+          (spec_subscribers s t (fst (own_state (sched sigma ths) ths i))) v = true.
+Proof. exact conc_look_model. Qed.
+Print Assumptions C12_conc_look_model.
+
+(* ... and it accepts a run iff the process survived, no data race was reported, every thread's
+   trace is accepted and the final table has, for every pair of U and every channel, the count of the
+   specification; a thread's trace is accepted only if every lookup after its k-th operation shows
+   each own channel exactly as often as its first k+1 operations leave it subscribed, and no foreign
+   channel more often than it is ever subscribed to the looked-up (session, type). *)
+Theorem C12_conc_judge_sound : forall ths impl U final crashed races,
+  judge_conc ths impl U final crashed races = true <->
+  crashed = false /\ races = O /\
+  Forall2 (fun own ob => thread_ok (List.concat ths) own ob = true) ths impl /\
+  Forall2 (fun p v => forall c, copies c v = copies c (conc_final (fst p) (snd p) ths)) U final.
+Proof. exact judge_conc_sound. Qed.
+Print Assumptions C12_conc_judge_sound.
+
+Theorem C12_conc_thread_sound : forall all own impl,
+  thread_ok all own impl = true ->
+  List.length impl = List.length own /\
+  forall k o ob s t v, nth_error own k = Some o -> nth_error impl k = Some ob -> op_pair own o = Some (s, t) ->
+    ob <> [] /\
+    (In v ob -> forall c,
+       if owns own c then copies c v = copies c (spec_subscribers s t (fst (run_a a_init (firstn (S k) own))))
+       else (copies c v <= copies c (sub_chans s t all))%nat).
+Proof. exact thread_ok_sound. Qed.
+Print Assumptions C12_conc_thread_sound.
+
+(* the function evaluated on the cases (candidate channels computed once per pair) is the judge *)
+Theorem C12_conc_fast_eq : forall ths impl U final crashed races,
+  judge_conc_fast ths impl U final crashed races = judge_conc ths impl U final crashed races.
+Proof. exact judge_conc_fast_eq. Qed.
+Print Assumptions C12_conc_fast_eq.
+
+(* Non-vacuity: three threads on one hyphenated session and on sessions of their own, an interleaved
+   complete schedule: hypotheses hold, the judge accepts the model's observation; a lost subscription
+   (thread 0's channel missing from the final table), a crash or a reported race are rejected. *)
+Example C12_conc_nonvacuous :
+  let ths := [[Sub "1-2-100-104-17" 1 11 101; Sub "1-2-100-1-0" 1 12 102; Unsub 0; Deliver "1-2-100-104-17" 1];
+              [Sub "1-2-100-104-17" 1 21 201; Deliver "1-2-100-104-17" 1; Sub "1-2-100-104-17" 1 22 201];
+              [Deliver "1-2-100-104-17" 1; Sub "1-2-100-104-17" 1 31 301; Unsub 0; Unsub 0]] in
+  let sigma := [0; 1; 2; 2; 1; 0; 0; 2; 1; 7; 0; 2; 1]%nat in
+  let U := [("1-2-100-104-17", 1); ("1-2-100-1-0", 1)] in
+  let g := sched sigma ths in
+  wf_ownb ths = true /\ wf_ops (g_hist g) = true /\
+  map (progress g) [0; 1; 2]%nat = [4; 3; 4]%nat /\
+  conc_final_obs g U = [[201; 201]; [102]] /\
+  nth 0 (conc_obs g) [] = [[[101]]; [[102]]; [[201; 301]]; [[201; 201]; [201; 201]]] /\
+  judge_conc ths (conc_obs g) U (conc_final_obs g U) false O = true /\
+  judge_conc_fast ths (conc_obs g) U (conc_final_obs g U) false O = true /\
+  judge_conc ths (conc_obs g) U [[201]; [102]] false O = false /\
+  judge_conc ths (conc_obs g) U (conc_final_obs g U) true O = false /\
+  judge_conc ths (conc_obs g) U (conc_final_obs g U) false 3 = false.
 Proof. vm_compute. repeat split. Qed.
